@@ -224,20 +224,18 @@ func trimResultsToRange(dr *planner.DateRange, rowlen int, src []byte) (dest []b
 		cursor += rowLength
 	}
 
+	// find the end of the range: cut after the last row that is not after End
 	nrecords = len(dest) / rowLength
-	if nrecords <= 1 {
-		return dest
-	}
 	for i := nrecords; i > 0; i-- {
 		cursor = (i - 1) * rowLength
 		t := TimeOfVariableRecord(dest, cursor, rowLength)
 		if t.Equal(dr.End) || t.Before(dr.End) {
-			dest = dest[:cursor+rowLength]
-			break
+			return dest[:cursor+rowLength]
 		}
 	}
 
-	return dest
+	// no remaining row is in the range
+	return nil
 }
 
 func TimeOfVariableRecord(buf []byte, cursor, rowLength int) time.Time {
